@@ -73,6 +73,9 @@ pub enum Ev {
     /// a future of the encoder completed and its result is handled now
     #[serde(rename = "done")]
     Done(TaskObs),
+    /// Encoder::encode returned, reporting these clause ids as conflicting
+    #[serde(rename = "encres")]
+    EncodeResult(Vec<u32>),
 }
 /// A unit of work of the encoder (None = root)
 #[derive(Clone, Debug, Serialize, Deserialize, PartialEq, Eq)]
@@ -94,6 +97,9 @@ pub struct Dump {
     pub trail: Vec<(V, bool, u32, u32)>,
     /// clause ids reported in the Conflict (Unsat only)
     pub core: Vec<u32>,
+    /// clause ids registered as negative assertions, in registration order
+    #[serde(default)]
+    pub asserts: Vec<u32>,
 }
 
 #[derive(Clone, Debug, Serialize, Deserialize, PartialEq, Eq)]
@@ -286,6 +292,7 @@ pub fn dump_obs(d: &resolvo::verif::VerifDump, core: Vec<u32>) -> Dump {
             VerifEvent::UndoLast => Ev::UndoLast,
             VerifEvent::Encode(l) => Ev::Encode(l.iter().map(|&x| if x == u32::MAX { None } else { Some(x) }).collect()),
             VerifEvent::SoftRegister(s) => Ev::SoftRegister(*s),
+            VerifEvent::EncodeResult(l) => Ev::EncodeResult(l.clone()),
             VerifEvent::TaskDone(t) => {
                 use resolvo::verif::VerifTask as T;
                 let so = |x: u32| if x == u32::MAX { None } else { Some(x) };
@@ -300,7 +307,7 @@ pub fn dump_obs(d: &resolvo::verif::VerifDump, core: Vec<u32>) -> Dump {
         })
         .collect();
     let trail = d.trail.iter().map(|&(x, b, l, r)| (v(x), b, l, r)).collect();
-    Dump { clauses, events, trail, core }
+    Dump { clauses, events, trail, core, asserts: d.negative_assertions.clone() }
 }
 
 #[derive(Clone, Debug)]
